@@ -23,9 +23,17 @@ def ci_match(q, lab):
 
 
 def match(q, lab, case_sensitive):
+    """q is always a string; an unlabelled taxon (label None) matches no string under either setting"""
+    if lab is None:
+        return False
     if case_sensitive:
         return q == lab
     return ci_match(q, lab)
+
+
+def msorted(xs):
+    """sorted() for label lists that may hold None (unlabelled taxa / unnamed rendering slots)"""
+    return sorted(xs, key=lambda x: (x is None, x if x is not None else ""))
 
 
 # ---------------------------------------------------------------------------------------
@@ -38,6 +46,9 @@ class World(object):
     def __init__(self):
         self.labels = {}
         self._next = 0
+        # deferred copy clauses: [original model, tid, copy model, tid in the copy, copy kind,
+        #                         drops of tid in the original so far, drops in the copy so far]
+        self.links = []
 
     def new_tid(self, label):
         t = self._next
@@ -57,16 +68,35 @@ class NSModel(object):
         self.w = world
         self.members = []
         self.bits = {}
+        # the flags are kept as given (they may be truthy/falsy non-bools such as 1 / 0); what they MEAN is bool()
+        self.cs_raw = cs
+        self.mutable_raw = mutable
         self.cs = bool(cs)
         self.mutable = bool(mutable)
         self.ever_removed = False
+        self.drops = {}             # tid -> number of times it left this namespace
+        self.pre_members = []       # members before the operation being judged
+        self.pre_mutable = self.mutable
+
+    def set_cs(self, raw):
+        self.cs_raw = raw
+        self.cs = bool(raw)
+
+    def set_mutable(self, raw):
+        self.mutable_raw = raw
+        self.mutable = bool(raw)
+
+    def mark_pre(self):
+        self.pre_members = list(self.members)
+        self.pre_mutable = self.mutable
 
     def snapshot(self):
-        return (list(self.members), dict(self.bits), self.cs, self.mutable, self.ever_removed)
+        return (list(self.members), dict(self.bits), self.cs_raw, self.mutable_raw, self.ever_removed)
 
     def restore(self, snap):
-        self.members, self.bits, self.cs, self.mutable, self.ever_removed = (
-            list(snap[0]), dict(snap[1]), snap[2], snap[3], snap[4])
+        self.members, self.bits, self.ever_removed = list(snap[0]), dict(snap[1]), snap[4]
+        self.set_cs(snap[2])
+        self.set_mutable(snap[3])
 
     def eff_cs(self, override):
         return self.cs if override is None else bool(override)
@@ -88,6 +118,7 @@ class NSModel(object):
         self.members.remove(tid)
         self.bits.pop(tid, None)
         self.ever_removed = True
+        self.drops[tid] = self.drops.get(tid, 0) + 1
 
     def state_sig(self):
         """canonical state: (label, bit position or None) in membership order + flags"""
@@ -149,6 +180,8 @@ def newick_tokens(s):
 
 
 def _parse_group(toks, pos):
+    """items of one parenthesised group; an EMPTY item (nothing between two separators, standard Newick for an
+    unnamed leaf) is None, a quoted empty token '' is the string ""; "()" has no items"""
     if pos >= len(toks) or toks[pos][0] != "(":
         raise ValueError("expected '('")
     pos += 1
@@ -165,8 +198,10 @@ def _parse_group(toks, pos):
         elif k == "L":
             items.append(v)
             pos += 1
+        elif k in ",)":
+            items.append(None)
         else:
-            raise ValueError("empty item before %r" % k)
+            raise ValueError("unexpected %r" % k)
         if pos >= len(toks):
             raise ValueError("unterminated group")
         k = toks[pos][0]
@@ -178,18 +213,38 @@ def _parse_group(toks, pos):
             raise ValueError("expected ',' or ')', got %r" % k)
 
 
+def _flat(g):
+    return isinstance(g, list) and all(x is None or isinstance(x, str) for x in g)
+
+
 def parse_newick_groups(s):
     """('star', [labels])  for "(a,b,c);"      ('split', [left], [right])  for "((a), (b, c));"
-    ValueError for anything else."""
+    (None in a label list = an unnamed slot).  ValueError for anything else."""
     toks = newick_tokens(s)
     top, pos = _parse_group(toks, 0)
     if pos >= len(toks) or toks[pos][0] != ";" or pos + 1 != len(toks):
         raise ValueError("expected ';' at the end")
-    if all(isinstance(x, str) for x in top):
+    if _flat(top):
         return ("star", top)
-    if len(top) == 2 and all(isinstance(g, list) and all(isinstance(x, str) for x in g) for g in top):
+    if len(top) == 2 and _flat(top[0]) and _flat(top[1]):
         return ("split", top[0], top[1])
     raise ValueError("neither a star nor a two-group split")
+
+
+def group_diff(got, want, norm=None):
+    """Does a rendered group name exactly the wanted labels?  Unnamed slots (None) and unlabelled taxa (None)
+    cannot be compared by name and are left out.  None = yes; 'empty-label-rendered-as-nothing' = the only
+    difference is that members labelled "" are missing from the rendering; 'other' = anything else."""
+    f = norm or (lambda x: x)
+    g = sorted(f(x) for x in got if x is not None)
+    w = sorted(f(x) for x in want if x is not None)
+    if g == w:
+        return None
+    g2 = [x for x in g if x != ""]
+    w2 = [x for x in w if x != ""]
+    if g2 == w2 and len(g) < len(w):
+        return "empty-label-rendered-as-nothing"
+    return "other"
 
 
 def bitstring_positions(s):
@@ -242,6 +297,32 @@ MINI = [
 MICRO = [
     ["new", "b"], ["new", "a"], ["remove_at", 1], ["sort", None, True], ["readd"],
 ]
-ALPHABETS = {"full": FULL, "core": CORE, "mini": MINI, "micro": MICRO}
+# option dimensions of the label operations, enumerated exhaustively on a namespace that STARTS as [a, A, b]
+# (OPTS_INIT): per-call override (True / False / truthy non-bool 1) x first_match_only x immutability x flag toggle,
+# plus the list-taking and legacy routes (new_taxa, add_taxa, append) and a clone
+OPTS = [
+    ["new_taxa", ["B", "b"]],
+    ["discard", "a", True, False], ["discard", "A", False, True],
+    ["remove_label", "A", False, False], ["remove_label", "a", True, True],
+    ["require", "A", True], ["require", "B", 0], ["require", "B", 1],
+    ["set_mutable", False], ["set_mutable", 1], ["set_cs", "toggle"],
+    ["add_fresh", "a", True], ["add_taxa", 0], ["readd"],
+    ["copy", "clone0", True],
+]
+OPTS_INIT = [["L", "a"], ["L", "A"], ["T", "b"]]
+# label boundary classes: the empty string, blank-padded labels, an unlabelled taxon (label None)
+EDGE = [
+    ["new", ""], ["new", "a"], ["new", " a"], ["add_fresh", None, False],
+    ["require", "", None], ["require", "A ", None], ["require", " a", False],
+    ["discard", "", None, False], ["discard", "a", None, False], ["remove_label", " A", None, True],
+    ["remove_at", 0], ["relabel_edge", 0], ["readd"], ["reverse"],
+]
+EDGE_QUERIES = ["", "a", " a", "A ", " "]
+ALPHABETS = {"full": FULL, "core": CORE, "mini": MINI, "micro": MICRO, "opts": OPTS, "edge": EDGE}
+ALPHABET_INIT = {"opts": OPTS_INIT}
+ALPHABET_QUERIES = {"edge": EDGE_QUERIES}
+# namespace flag values per alphabet (default: the bools); 1 / 0 are the truthy / falsy non-bool twins
+ALPHABET_CS = {"opts": (False, 1), "edge": (0, True)}
 
 CYCLE = {"a": "A", "A": "b", "b": "a"}
+EDGE_CYCLE = {"a": "", "": " a", " a": None, None: "a"}
